@@ -20,6 +20,7 @@ def spec():
         'Q0': St(), 'Q1': St(), 'R0': St(), 'R1': St(),
         'P': St('entry_pt', zone=0),
         'X': St('exit_pt', event='E6'),
+        'Y': St('exit_pt', event='E8'),      # a second exit point, in the other region (seeded change C09-any-exit-point)
     }, [
         Row('P', 'E4', 'Q1', actions=['pq']),
         Row('Q0', 'E1', 'Q1'),
@@ -28,6 +29,7 @@ def spec():
         Row('R0', 'E2', 'R1'),
         Row('R1', 'E2', 'R0'),
         Row('R1', 'E5', None, guard=4, actions=['r5']),
+        Row('R0', 'E5', 'Y', guard=6, actions=['toy']),
     ])
     root = Machine('Root', ['Out'], {
         'Out': St(), 'Sub': Sub(sub), 'Pt': Sub(pt), 'Done': St(),
@@ -44,9 +46,10 @@ def spec():
         Row('Pt', 'E0', 'Out'),
         Row('Pt', 'E7', ('direct', 'Sub', ['A1', 'B1', 'C1'])),
         Row(('exit', 'Pt', 'X'), 'E6', 'Done', guard=2, actions=['left']),
+        Row(('exit', 'Pt', 'Y'), 'E8', 'Out', guard=7, actions=['lefty']),
         Row('Done', 'E0', 'Out'),
         Row('Done', 'E6', None, actions=['d6']),
         Row('Out', 'E6', None, guard=3, actions=['o6']),
     ])
-    return {'name': 'M05', 'events': ['E0', 'E1', 'E2', 'E3', 'E4', 'E5', 'E6', 'E7'], 'exit_events': ['E6'],
+    return {'name': 'M05', 'events': ['E0', 'E1', 'E2', 'E3', 'E4', 'E5', 'E6', 'E7', 'E8'], 'exit_events': ['E6', 'E8'],
             'flags': [], 'root': root}
